@@ -252,6 +252,13 @@ func (x *Executor) applyContract(fr *Frame, st *State, reach string, con *Contra
 		}
 		u.addObl(o)
 	}
+	// a callee that never returns (ensures false) ends the path
+	for _, en := range con.Ensures {
+		if id, ok := en.E.(*EIdent); ok && id.Name == "false" {
+			u.assume(fmt.Sprintf("(not %s)", reach))
+			return x.freshResult(st, resTy, false)
+		}
+	}
 	// frame
 	if con.ModAll {
 		x.havocAll(st)
@@ -661,8 +668,8 @@ func (x *Executor) execAppend(fr *Frame, st *State, reach string, args []Val, re
 	u.assume(fmt.Sprintf("(and (>= %s %s) (<= %s %s))", ncap, total, ncap, maxSliceLen))
 	u.assume(fmt.Sprintf("(<= %s %s)", total, maxSliceLen)) // memory is finite: an append that would exceed the address space panics
 	h := x.heapGet(st, comp)
-	nbase := u.define("app.base", "Int", fmt.Sprintf("(ite %s (s.base %s) %s)", fits, s.T, fresh))
-	noff := u.define("app.off", "Int", fmt.Sprintf("(ite %s (s.off %s) 0)", fits, s.T))
+	nbase := u.defineAtom("app.base", "Int", fmt.Sprintf("(ite %s (s.base %s) %s)", fits, s.T, fresh))
+	noff := u.defineAtom("app.off", "Int", fmt.Sprintf("(ite %s (s.off %s) 0)", fits, s.T))
 	inner := u.freshConst("app.arr", "(Array Int "+es+")")
 	// old elements
 	u.assume(fmt.Sprintf("(forall ((j Int)) (! (=> (and (<= 0 j) (< j (s.len %[1]s))) (= (select %[2]s (sidx %[3]s j)) (select (select %[4]s (s.base %[1]s)) (sidx (s.off %[1]s) j)))) :pattern ((select %[2]s (sidx %[3]s j)))))", s.T, inner, noff, h))
@@ -694,7 +701,7 @@ func (x *Executor) execCopy(fr *Frame, st *State, reach string, args []Val) Val 
 	} else {
 		slen = fmt.Sprintf("(s.len %s)", s.T)
 	}
-	n := u.define("copy.n", "Int", fmt.Sprintf("(imin (s.len %s) %s)", d.T, slen))
+	n := u.defineAtom("copy.n", "Int", fmt.Sprintf("(imin (s.len %s) %s)", d.T, slen))
 	h := x.heapGet(st, comp)
 	inner := u.freshConst("copy.arr", "(Array Int "+u.sortOf(et)+")")
 	if srcStr {
